@@ -6,7 +6,7 @@ from .. import core, gen_mesh as gm
 ID = "C10"
 LIMIT = 8.0
 RULE = ("edge-manifold orientable base meshes (tetrahedron, octahedron, cube, icosahedron, torus, grids, fans, annuli, open cube, "
-        "ellipsoids; unions of 2-3 components of different size) in which every triangle has an interior edge, x flip patterns "
+        "ellipsoids; unions of 2-3 components of different size, also with a two-triangle pillow as first / middle / last component) in which every triangle has an interior edge, x flip patterns "
         "(all 2^T for T <= 8 (quick: T <= 6) else sampled, always including none / all / single), x cyclic rotations x relabelling x "
         "unused vertices x length unit (30%: coordinates scaled by 1e-6, 3e-7, 1e-4 or 1e3); plus non-manifold books and three-cone complexes for the ValueError clause. distinct = hash of (v,t); "
         "non-trivial = at least one triangle flipped relative to a consistent orientation, or a rejected mesh")
@@ -46,6 +46,12 @@ def bases(rng, tier):
     out.append(("union2", gm.union([t1, ((np.array(t2[0]) * 0.5).tolist(), t2[1])])))
     out.append(("union3", gm.union([gm.tetra_surface(), ((np.array(gm.cube_surface()[0]) * 0.6).tolist(), gm.cube_surface()[1]), gm.grid(2, 1)])))
     out.append(("union_open", gm.union([gm.fan(4), gm.grid(2, 2)])))
+    # "pillows": two triangles on the same three vertices (a sphere made of two faces; every edge lies in exactly two triangles,
+    # the two triangles share all three edges), as the last, the first or a middle component
+    pil = ([[5.0, 0.0, 0.0], [6.0, 0.2, 0.0], [5.1, 1.0, 0.3]], [[0, 1, 2], [0, 2, 1]])
+    out.append(("union_pillow_last", gm.union([gm.tetra_surface(), pil])))
+    out.append(("union_pillow_first", gm.union([pil, gm.tetra_surface()])))
+    out.append(("union_pillow_open", gm.union([gm.grid(2, 1), pil, gm.fan(4)])))
     if tier == "thorough":
         out.append(("ellipsoid", gm.ellipsoid(1)))
         out.append(("torus45", gm.torus(4, 5)))
